@@ -339,9 +339,11 @@ impl BRC20ProgEngine {
                 .read()
                 .get_pending_tx_op_return_tx_id(pending_tx.hash.bytes)?;
 
+            let mut executed = false;
             if let Some(pending_tx_block_number) = pending_tx.block_number {
                 let pending_tx_block_number: u64 = pending_tx_block_number.into();
                 if MAX_FUTURE_TRANSACTION_BLOCKS + pending_tx_block_number > block_number {
+                    executed = true;
                     let receipt = self.add_tx_to_block(
                         timestamp,
                         &TxInfo::from_saved_transaction(
@@ -367,6 +369,11 @@ impl BRC20ProgEngine {
             self.db.write_fn(|db| {
                 db.remove_pending_tx(pending_tx.from.address, pending_tx.nonce.into())
             })?;
+            if !executed {
+                // An expired transaction is dropped without using a transaction index, and the
+                // ones waiting behind it have lost their predecessor
+                break;
+            }
             next_nonce += 1;
             next_tx_idx += 1;
         }
